@@ -5,6 +5,9 @@ using namespace wc;
 #ifndef VK_STEPS
 #define VK_STEPS 4
 #endif
+#ifndef VK_CUT
+#define VK_CUT 1
+#endif
 
 struct X {
   W w; int pre = 0; int disc = -1; uint8_t rc = 0; bool has_rs = false; uint8_t rs1 = 0; int64_t t0 = 0;
@@ -52,13 +55,14 @@ struct X {
 
 extern "C" void h_disc(void) {
   X* x = new X(); W& w = x->w;
-  x->pre = vk_choose(6);
+  x->pre = vk_choose(7);
   w.start();
   if (x->pre == 5) { w.publish<qos_e::at_least_once>("t", "A"); vk::drain(); }                                        // never connected, a request already queued
   if (x->pre >= 1 && x->pre <= 4) {
     uint8_t props[3] = {0x21, 0, 1};
     bool ok = w.establish(); vk_assert(ok, "first connection"); w.send_connack(false, 0, props, x->pre == 3 ? 3 : 0); w.feed_all(); vk::drain();
   }
+  if (x->pre == 6) { bool ok = w.establish(); vk_assert(ok, "first connection"); }                                       // CONNECT written, CONNACK outstanding
   if (x->pre == 2) { w.publish<qos_e::at_least_once>("t", "A"); vk::drain(); }                                        // write in progress
   if (x->pre == 3) { w.publish<qos_e::at_least_once>("t", "A"); vk::drain(); auto* s = vk::pending_write(); x->finish(s); w.publish<qos_e::at_least_once>("t", "B"); vk::drain(); }   // one in flight, one throttled
   if (x->pre == 4) { w.publish<qos_e::at_least_once>("t", "A"); vk::drain(); w.publish<qos_e::at_most_once>("t", "B"); w.subscribe({{"f", subscribe_options{}}}); vk::drain(); }       // write in progress, two queued behind
@@ -74,8 +78,10 @@ extern "C" void h_disc(void) {
     switch (ev) {
       case 0: { auto* s = vk::pending_write(); if (!s) vk_assume(0); x->finish(s); break; }
       case 1: { auto* s = vk::pending_write(); if (!s) vk_assume(0); w.writes_completed++; vk::complete_write(s, 0, asio::error::connection_reset); vk::drain(); vk_reach("write-failed"); break; }
-      case 2: { vk::timer_rec* best = nullptr; for (auto* t : vk::world().timers) if (t->armed && vk::timer_can_fire(t)) { best = t; break; }
-                if (!best) vk_assume(0); vk::timer_fire(best); vk::drain(); vk_reach("timer-fired"); break; }
+      case 2: { // any of the timers with the earliest deadline may fire first
+                vk::timer_rec* can[4]; int n = 0; for (auto* t : vk::world().timers) if (t->armed && vk::timer_can_fire(t) && n < 4) can[n++] = t;
+                if (!n) vk_assume(0); vk::timer_rec* best = can[n > 1 ? vk_choose(n) : 0]; if (n > 1) vk_reach("timers-tie");
+                vk::timer_fire(best); vk::drain(); vk_reach("timer-fired"); break; }
       case 3: { if (w.ops[x->disc].done) vk_assume(0);
                 if (auto* r = vk::pending_resolve()) { vk::complete_resolve(r, {}, 1); vk::drain(); }
                 else if (auto* s = vk::pending_connect()) { vk::complete_connect(s, {}); w.new_connection(); x->epoch_at_call = w.epoch; vk::drain(); }
@@ -83,14 +89,25 @@ extern "C" void h_disc(void) {
                 break; }
       case 4: { // the broker answers the CONNECT of a connection that was still being set up when async_disconnect was called
                 if (w.ops[x->disc].done || w.connack_sent || w.count_of(ref::CONNECT, w.epoch) == 0 || !vk::pending_read()) vk_assume(0);
-                int b = w.npk; w.send_connack(false, 0, nullptr, 0); w.feed_all(); vk::drain(); x->on_packets(b); vk_reach("connack-after-call"); break; }
+                int b = w.npk; w.send_connack(false, 0, nullptr, 0);
+#if VK_CUT
+                // the handlers this CONNACK queues may be interleaved with the next event (e.g. the 5 s timer of async_disconnect expiring
+                // between the accepted CONNACK and the installation of the new stream): stop draining at any handler boundary
+                bool cut = false;
+                for (int g = 0; g < 8 && !cut && w.out_avail() && vk::pending_read(); g++) { w.feed(w.out_avail()); while (vk::world().q_head) { if (vk_choose(2)) { cut = true; break; } vk::run_one(); } }
+                if (cut) vk_reach("connack-handlers-left-queued");
+#else
+                w.feed_all(); vk::drain();
+#endif
+                x->on_packets(b); vk_reach("connack-after-call"); break; }
       default: { // the broker sends a QoS 1 PUBLISH: the client queues a PUBACK behind whatever is already queued
                 if (w.ops[x->disc].done || !w.connected() || x->inbound_sent) vk_assume(0); x->inbound_sent = true;
                 w.publish_to_client("m", 1, "x", 1, 1, false, 9); w.feed_all(); vk::drain(); vk_reach("inbound-publish"); break; }
     }
     vk_event(10 + ev, vk_now_ms);
-    x->check();
+    if (all_quiet()) x->check();
   }
+  vk::drain();
   // run down: let time pass until nothing is armed; the operation must have finished within its 5 s
   for (int g = 0; g < 8; g++) {
     vk::timer_rec* best = nullptr; for (auto* t : vk::world().timers) if (t->armed && vk::timer_can_fire(t)) { best = t; break; }
@@ -101,4 +118,5 @@ extern "C" void h_disc(void) {
   if (x->pre == 0) vk_reach("never-connected");
   if (x->pre == 3) vk_reach("throttled-traffic");
   if (x->pre == 5) vk_reach("never-connected-with-queued-request");
+  if (x->pre == 6) vk_reach("handshake-in-progress");
 }
